@@ -129,6 +129,68 @@ R.contract(
     replayable=False,
 )
 
+# ------------------------------------------------------------------------------------------------- which operations exist: root query and mutation fields, nothing else
+def _skip_term(it, label):
+    import z3
+    from pyvc.values import z3_of
+
+    return z3.Function("uf:deselected_by_filters", z3.StringSort(), z3.BoolSort())(z3_of(label))
+
+
+def _should_skip(it, env):
+    return it.path.branch(_skip_term(it, env["operation"].fields["label"]))
+
+
+R.contract(GQ + "GraphQLSchema._should_skip", args={"self": Opq("Any"), "operation": Opq("Any")}, returns=_should_skip, trusted=True,
+           note="C07 contracts: `not filter_set.match(operation)`: a function of the operation's label for name filters")
+R.spec_funcs["deselected"] = lambda it, label: __import__("pyvc.values", fromlist=["wrap"]).wrap(_skip_term(it, label))
+R.contract("schemathesis.schemas:APIOperation", abstract_only=True, args={}, returns=lambda it, env: __import__("pyvc.values", fromlist=["VObj"]).VObj(it.resolve_class("spec:DummyOperation"), {"label": env.get("label", "")}),
+           note="dataclass constructor (only `label` matters to the filters here)")
+R.contract("schemathesis.schemas:BaseSchema.get_base_url", args={"self": Opq("Any")}, returns=Str, trusted=True, note="configured base URL")
+Field = lambda n: DictOf(required={"name": Const(n)})
+TypeDef = lambda name, fields: DictOf(required={"name": Const(name), "fields": fields})
+Introspection = DictOf(required={"__schema": DictOf(
+    optional={"queryType": Const({"name": "Query"}), "mutationType": Const({"name": "Mutation"}), "subscriptionType": Const({"name": "Subscription"})},
+    required={"types": TupleOf(TypeDef("Query", OneOf(Const(()), TupleOf(Field("a")), TupleOf(Field("a"), Field("b")))), TypeDef("Mutation", OneOf(Const(()), TupleOf(Field("m")))),
+                              TypeDef("Subscription", OneOf(Const(()), TupleOf(Field("s")))), TypeDef("Other", TupleOf(Field("x"))))})})
+ROOTS = "[(r, t) for r, t in (('queryType', 'Query'), ('mutationType', 'Mutation')) if r in self.raw_schema['__schema']]"
+FIELDS = "[t + '.' + f['name'] for r, t in " + ROOTS + " for td in self.raw_schema['__schema']['types'] if td['name'] == t for f in td['fields']]"
+R.contract(
+    GQ + "GraphQLSchema._measure_statistic",
+    prop="C20",
+    args={"self": Obj(GQ + "GraphQLSchema", raw_schema=Introspection, base_path=Str)},
+    ensures={
+        # the 'selected / total' counts are exactly the root QUERY and MUTATION fields (subscriptions are never offered) that pass the filters
+        "total_counts_query_and_mutation_fields": "result.operations.total == length(" + FIELDS + ")",
+        "selected_counts_those_passing_the_filters": "result.operations.selected == length([x for x in " + FIELDS + " if not deselected(x)])",
+    },
+    bounded_note="introspection documents with up to 2 query fields, 1 mutation field, 1 subscription field",
+    replayable=False,
+)
+GField = Opq("GraphQLField")
+RootObj = lambda name, names: Obj("spec:GraphQLObjectType", name=Const(name), fields=OneOf(*[Const({}) if not ns else DictOf(required={n: GField for n in ns}) for ns in names]))
+R.contract(GQ + "GraphQLSchema._build_operation", args={"self": Opq("Any"), "root_type": Opq("Any"), "operation_type": Opq("Any"), "field_name": Str, "field": Opq("Any")},
+           returns=lambda it, env: __import__("pyvc.values", fromlist=["VObj"]).VObj(it.resolve_class("spec:DummyOperation"),
+                                                                                {"label": env["operation_type"].fields["name"] + "." + env["field_name"], "root": env["root_type"]}),
+           trusted=True, effects={"built": "ghost('built') + [result.label]"}, note="the APIOperation for a root field: label `<Type>.<field>` (constructor)")
+Client = Obj("spec:ClientSchema", query_type=OneOf(NoneT, RootObj("Query", [(), ("a",), ("a", "b")])), mutation_type=OneOf(NoneT, RootObj("Mutation", [(), ("m",)])),
+             subscription_type=OneOf(NoneT, RootObj("Subscription", [("s",)])))
+OFFERED = ("[t.name + '.' + f for t in (self.client_schema.query_type, self.client_schema.mutation_type) if t is not None for f in t.fields]")
+R.contract(
+    GQ + "GraphQLSchema.get_all_operations",
+    prop="C20",
+    args={"self": Obj(GQ + "GraphQLSchema", client_schema=Client), "generation_config": NoneT},
+    ghost={"built": []},
+    raises=[],
+    ensures={
+        # the operations offered are exactly the root query and mutation fields that pass the filters - in document order, each once
+        "offered_exactly_the_selected_root_fields": "[r.ok().label for r in result] == [x for x in " + OFFERED + " if not deselected(x)]",
+        "queries_are_queries_and_mutations_mutations": "all(iff(r.ok().root.name == 'QUERY', r.ok().label.startswith('Query.')) for r in result)",
+    },
+    bounded_note="client schemas with up to 2 query fields, 1 mutation field, 1 subscription field",
+    replayable=False,
+)
+
 LEVEL_TEXT = ("Deductive pipeline-term obligations on the real graphql_cases and get_extra_scalar_strategies (what the generator is asked for, value sets of the built-in scalars); "
               "validity of the generated document is the library's (E7). Level other.")
 LEVEL_NOTE = "Trusted: hypothesis-graphql, graphql-core (E7), Hypothesis constructors (E2), pyvc semantics (E9)."
